@@ -22,13 +22,13 @@ theorem good_handle (cfg : Cfg) (fs : Call → Ans) (req : Bytes) (hcap : cfg.ca
   have hu : uniqueOf req < 2 ^ 64 := u64At_lt req 8
   unfold handle
   split
-  · exact good_silent _ _ _ rfl (by intro s; simp)
+  · exact good_silent _ _ _ rfl (by intro s; simp) (by intro n h; simp at h)
   · split
-    · exact good_silent _ _ _ rfl (by intro s; simp)
+    · exact good_silent _ _ _ rfl (by intro s; simp) (by intro n h; simp at h)
     · unfold afterRemap
       split
       · split
-        · exact good_silent _ _ _ rfl (by intro s; simp)
+        · exact good_silent _ _ _ rfl (by intro s; simp) (by intro n h; simp at h)
         · exact good_errRes _ _ _ _ _ hu (sane_os _ (by decide) (by decide))
       · exact good_handleBody _ _ _ _ _ _ _ _ _ hu hcap hfs
 
@@ -126,9 +126,49 @@ theorem init_compat_sizes_fit (cfg : Cfg) (ra en : Nat) :
 
 /-! ### exactly one answer -/
 
-/-- a reply reached the client: one fd write on /dev/fuse, a non-empty area on virtio-fs -/
-def Replied (cfg : Cfg) (r : Res) : Prop :=
-  if cfg.fusedev then r.out.sys.length = 1 else r.out.area ≠ []
+/-- Whenever message handling reports a positive number of reply bytes, exactly one reply
+    reached the client (one fd write on /dev/fuse; a non-empty, well-formed area on virtio-fs). -/
+theorem ok_return_means_replied (cfg : Cfg) (fs : Call → Ans) (req : Bytes) (hcap : cfg.cap < 2 ^ 32)
+    (hfs : FsSane fs) (n : Nat) (h : (handle cfg fs req).ret = .ok n) (hn : 0 < n) :
+    Replied cfg (handle cfg fs req) :=
+  (good_handle cfg fs req hcap hfs).okReplied n h hn
+
+/-- the common reply tail always answers when the buffer can hold the reply: an error needs 16
+    bytes, a success `16 + |body| + |data|` -/
+theorem finish_answers (cfg : Cfg) (u : Nat) (calls : List Call) (al : List Nat) (a : Ans)
+    (okb : Ans → Option (Bytes × Bytes)) (h16 : 16 ≤ cfg.cap)
+    (hfit : ∀ b d, okb a = some (b, d) → 16 + b.length + d.length ≤ cfg.cap) :
+    ∃ n, 0 < n ∧ (finish cfg u calls al a okb).ret = .ok n := by
+  unfold finish
+  split
+  · next e =>
+    rcases replyErr_cases cfg u e with ⟨_, h⟩ | ⟨h, _⟩
+    · omega
+    · exact ⟨16, by decide, by simp [errRes, h]⟩
+  · split
+    · next b d heq =>
+      rcases replyOk_cases cfg u b d with ⟨_, h⟩ | ⟨h, _⟩
+      · have := hfit b d heq; omega
+      · exact ⟨16 + b.length + d.length, by omega, by simp [okRes, h]⟩
+    · rcases replyErr_cases cfg u (.os ENOSYS) with ⟨_, h⟩ | ⟨h, _⟩
+      · omega
+      · exact ⟨16, by decide, by simp [errRes, h]⟩
+
+/-- **A well-formed request of an opcode that requires an answer produces exactly one reply.**
+    Stated for every handler built from the common shape "read the request structure, call the
+    file system once, reply" (`withObj` + `simple`: GETATTR, SETATTR, OPEN, WRITE, RELEASE, FSYNC,
+    FLUSH, OPENDIR, RELEASEDIR, FSYNCDIR, GETLK, SETLK, SETLKW, ACCESS, BMAP, POLL, FALLOCATE,
+    LSEEK, LISTXATTR): if the request structure is present (`n ≤ r.length`) and the reply buffer
+    can hold the reply, the result is a positive `ok`, hence (`ok_return_means_replied`) exactly
+    one reply. -/
+theorem structured_request_answered (cfg : Cfg) (fs : Call → Ans) (u : Nat) (calls0 : List Call)
+    (r : Bytes) (n : Nat) (mk : Bytes → Call) (okb : Ans → Option (Bytes × Bytes)) (hn : n ≤ r.length)
+    (h16 : 16 ≤ cfg.cap)
+    (hfit : ∀ b d, okb (fs (mk (r.take n))) = some (b, d) → 16 + b.length + d.length ≤ cfg.cap) :
+    ∃ k, 0 < k ∧ (withObj cfg calls0 r n fun b => simple cfg fs u calls0 (mk b) [] okb).ret = .ok k := by
+  unfold withObj
+  rw [if_neg (by omega)]
+  exact finish_answers cfg u _ _ _ okb h16 hfit
 
 /-- non-vacuity of the hypotheses: a concrete sane file system and capacity -/
 example : FsSane (fun _ => Ans.err (.os 2)) ∧ (4096 : Nat) < 2 ^ 32 := by
